@@ -699,3 +699,186 @@ V('v20.4', 'C20', 'F', 'C20.R2', 'both lists from the right-hand side', (TOOLS, 
 V('v20.5', 'C20', 'F', 'C20.R2', 'undirected graph', (TOOLS, 'symbols_to_graph', 'G = nx.DiGraph()', 'G = nx.Graph()'))
 V('v20.6', 'C20', 'F', 'C20.R3', 'code formatted over a different term list',
   (PARSER, 'parse_equation', 'code = template.format(*[t.code for t in terms])', 'code = template.format(*[t.code for t in parse_terms(equation)])'))
+
+# ---------------------------------------------------------------------------
+# C05
+# ---------------------------------------------------------------------------
+SV = 'SolverMixin.solve'
+V('v05.1', 'C05', 'F', 'C05.R1', 'solve drops offset', (IFACE, SV, '                offset=offset,\n', ''))
+V('v05.1b', 'C05', 'F', 'C05.R1', 'linker solve drops the selection', (LINKERS, 'BaseLinker.solve', '                submodels=submodels,\n', ''))
+V('v05.2', 'C05', 'F', 'C05.R1', 'loop body swallows failures',
+  (IFACE, SV, """            solved[i] = self.solve_t(
+                t,
+                min_iter=min_iter,
+                max_iter=max_iter,
+                tol=tol,
+                offset=offset,
+                failures=failures,
+                errors=errors,
+                catch_first_error=catch_first_error,
+                **kwargs,
+            )
+""", """            try:
+                solved[i] = self.solve_t(
+                    t,
+                    min_iter=min_iter,
+                    max_iter=max_iter,
+                    tol=tol,
+                    offset=offset,
+                    failures=failures,
+                    errors=errors,
+                    catch_first_error=catch_first_error,
+                    **kwargs,
+                )
+            except Exception:
+                continue
+"""))
+V('v05.2b', 'C05', 'F', 'C05.R1', 'stops at the first unsolved period',
+  (IFACE, SV, "        return labels, indexes, solved", "        return labels, indexes, solved\n"),
+  (IFACE, SV, "                **kwargs,\n            )\n\n        return", "                **kwargs,\n            )\n            if not solved[i]:\n                break\n\n        return"))
+V('v05.2c', 'C05', 'F', 'C05.R1', 'labels and positions crossed in the result', (IFACE, SV, 'return labels, indexes, solved', 'return indexes, labels, solved'))
+V('v05.3', 'C05', 'F', 'C05.R2', 'end exclusive', (IFACE, 'SolverMixin.iter_periods', 'self._locate_period_in_span(end) + 1', 'self._locate_period_in_span(end)'))
+V('v05.3b', 'C05', 'F', 'C05.R2', 'labels slice shifted', (IFACE, 'SolverMixin.iter_periods', 'self.span[indexes.start : indexes.stop]', 'self.span[indexes.start + 1 : indexes.stop + 1]'))
+V('v05.3c', 'C05', 'F', 'C05.R2', 'empty span tolerated', (IFACE, 'SolverMixin.iter_periods', """        if len(self.span) == 0:
+            raise SolutionError('Object `span` is empty: No periods to solve')
+""", ''))
+V('v05.4', 'C05', 'F', 'C05.R3', 'start validation after iter_periods',
+  (IFACE, SV, """        if start is not None and not isinstance(
+            self._locate_period_in_span(start), int
+        ):
+            raise KeyError(start)
+
+""", ''),
+  (IFACE, SV, "        # fmt: off\n", "        if start is not None and not isinstance(\n            self._locate_period_in_span(start), int\n        ):\n            raise KeyError(start)\n\n        # fmt: off\n"))
+V('v05.4b', 'C05', 'F', 'C05.R3', 'end validation dropped', (IFACE, SV, """        if end is not None and not isinstance(self._locate_period_in_span(end), int):
+            raise KeyError(end)
+""", ''))
+V('v05.5', 'C05', 'F', 'C05.R5', 'revert F4', (CONT, 'VectorContainer._locate_period_in_span_fallback', 'return int(positions[0])', 'return positions[0]'))
+V('v05.6', 'C05', 'F', 'C05.R1', 'solve_t given i instead of t', (IFACE, SV, "            solved[i] = self.solve_t(\n                t,", "            solved[i] = self.solve_t(\n                i,"))
+V('v05.s1', 'C05', 'S', None, '.item() conversion', (CONT, 'VectorContainer._locate_period_in_span_fallback', 'return int(positions[0])', 'return positions[0].item()'))
+
+# ---------------------------------------------------------------------------
+# C09
+# ---------------------------------------------------------------------------
+SA = 'VectorContainer.__setattr__'
+V('v09.1', 'C09', 'F', 'C09.R1', 'revert F3: no ndim test',
+  (CONT, SA, """            if value_as_array.ndim != 1 or value_as_array.shape[0] != len(
+                self.__dict__['span']
+            ):""", """            if value_as_array.shape[0] != len(self.__dict__['span']):"""))
+V('v09.1b', 'C09', 'F', 'C09.R1', 'length test dropped from __setattr__',
+  (CONT, SA, """            if value_as_array.ndim != 1 or value_as_array.shape[0] != len(
+                self.__dict__['span']
+            ):""", """            if value_as_array.ndim != 1:"""))
+V('v09.2', 'C09', 'F', 'C09.R1', 'add_variable without flatten', (CONT, 'VectorContainer.add_variable', 'value_as_array = np.array(value).flatten()', 'value_as_array = np.array(value)'))
+V('v09.2b', 'C09', 'F', 'C09.R1', 'add_variable without the length check',
+  (CONT, 'VectorContainer.add_variable', """        if value_as_array.shape[0] != len(self.__dict__['span']):
+            raise DimensionError(
+                f"Invalid assignment for '{name}': "
+                f"must be either a single value or "
+                f"a sequence of identical length to `span`"
+                f"(expected {len(self.__dict__['span'])} elements)"
+            )
+""", ''))
+V('v09.2c', 'C09', 'F', 'C09.R1', 'a new writer replaces a backing array',
+  (CONT, 'VectorContainer.replace_values', "            self.__setitem__(k, v)", "            self.__dict__['_' + k] = np.asarray(v)"))
+V('v09.3', 'C09', 'F', 'C09.R2', '__setattr__ without dtype', (CONT, SA, "value_as_array = np.array(value, dtype=self.__dict__['_' + name].dtype)", 'value_as_array = np.array(value)'))
+V('v09.3b', 'C09', 'F', 'C09.R2', 'values setter without astype', (CONT, 'VectorContainer.values.setter', "name, series.astype(self.__getattribute__('_' + name).dtype)", 'name, series'))
+V('v09.3c', 'C09', 'F', 'C09.R2', 'scalar path rebinds instead of [:] =', (CONT, SA, "            self.__dict__['_' + name][:] = value", "            self.__dict__['_' + name] = np.full(len(self.__dict__['span']), value)"))
+V('v09.4', 'C09', 'F', 'C09.R3', 'index.append before the dimension check',
+  (CONT, 'VectorContainer.add_variable', "        self.__dict__['_' + name] = value_as_array\n        self.__dict__['index'].append(name)\n", "        self.__dict__['_' + name] = value_as_array\n"),
+  (CONT, 'VectorContainer.add_variable', "        # Check dimensions\n", "        self.__dict__['index'].append(name)\n\n        # Check dimensions\n"))
+V('v09.4b', 'C09', 'F', 'C09.R3', 'names extended before the base call',
+  (IFACE, 'ModelInterface.add_variable', "        super().add_variable(name, value, dtype=dtype)\n        self.__dict__['names'].append(name)\n", "        self.__dict__['names'].append(name)\n        super().add_variable(name, value, dtype=dtype)\n"))
+V('v09.5', 'C09', 'F', 'C09.R4', 'strict guard ignores existing attributes',
+  (CONT, SA, "            and name not in self.__dict__['_attributes']  # TODO: Check inclusion here\n", ''))
+V('v09.5b', 'C09', 'F', 'C09.R4', 'strict guard moved after the attribute branch',
+  (CONT, SA, """        # If `name` doesn't refer to a container variable...
+        if name not in self.__dict__['index']:
+            # ...check for an existing attribute and modify...
+            if name in self.__dict__['_attributes']:
+                super().__setattr__(name, value)
+
+            # ...otherwise, add as a new attribute
+            else:
+                self.add_attribute(name, value)
+
+            return
+""", ''),
+  (CONT, SA, "        # Error on attempt to add an attribute if `strict=True`\n", """        if name not in self.__dict__['index']:
+            if name in self.__dict__['_attributes']:
+                super().__setattr__(name, value)
+            else:
+                self.add_attribute(name, value)
+            return
+
+        # Error on attempt to add an attribute if `strict=True`
+"""))
+V('v09.6', 'C09', 'F', 'C09.R5', 'ModelInterface.size counts index', (IFACE, 'ModelInterface.size', "len(self.__dict__['names']) * len(self.__dict__['span'])", "len(self.__dict__['index']) * len(self.__dict__['span'])"))
+V('v09.s1', 'C09', 'S', None, 'flatten -> ravel', (CONT, 'VectorContainer.add_variable', 'np.array(value).flatten()', 'np.array(value).ravel()'))
+V('v09.s2', 'C09', 'S', None, 'guard written with shape tuple', (CONT, SA, """            if value_as_array.ndim != 1 or value_as_array.shape[0] != len(
+                self.__dict__['span']
+            ):""", """            if value_as_array.shape != (len(self.__dict__['span']),):"""))
+
+# ---------------------------------------------------------------------------
+# C10
+# ---------------------------------------------------------------------------
+RS = 'VectorContainer._resolve_period_slice'
+V('v10.1', 'C10', 'F', 'C10.R1', '+1 also for slice hits',
+  (CONT, RS, """        if isinstance(stop_location, slice):
+            stop_location = stop_location.stop
+        else:
+            # Only extend the limit for a regular index (`pandas`, for example,
+            # already adjusts for this in its own API)
+            # TODO: Check how generally this treatment applies i.e. beyond
+            #       `pandas`
+            stop_location += 1
+""", """        if isinstance(stop_location, slice):
+            stop_location = stop_location.stop
+        stop_location += 1
+"""))
+V('v10.2', 'C10', 'F', 'C10.R1', 'no +1', (CONT, RS, "            stop_location += 1\n", "            pass\n"))
+V('v10.2b', 'C10', 'F', 'C10.R1', 'open stop defaults to span[-2]', (CONT, RS, "stop = self.__dict__['span'][-1]", "stop = self.__dict__['span'][-2]"))
+V('v10.2c', 'C10', 'F', 'C10.R1', 'stop located from start', (CONT, RS, 'stop_location = self._locate_period_in_span(stop)', 'stop_location = self._locate_period_in_span(start)'))
+V('v10.2d', 'C10', 'F', 'C10.R1', 'slice hit for start takes .stop', (CONT, RS, 'start_location = start_location.start', 'start_location = start_location.stop'))
+V('v10.3', 'C10', 'F', 'C10.R2', 'set ignores the step', (CONT, 'VectorContainer.__setitem__', "self.__dict__['_' + name][start_location:stop_location:step] = value", "self.__dict__['_' + name][start_location:stop_location] = value"))
+V('v10.3b', 'C10', 'F', 'C10.R2', 'get indexes location + 1', (CONT, 'VectorContainer.__getitem__', 'return values[location]', 'return values[location + 1]'))
+V('v10.4', 'C10', 'F', 'C10.R3', 'handler returns 0', (CONT, 'VectorContainer._locate_period_in_span', """                    try:
+                        return index_function(period)
+                    except Exception as e:
+                        raise KeyError(period) from e""", """                    try:
+                        return index_function(period)
+                    except Exception as e:
+                        return 0"""))
+V('v10.4b', 'C10', 'F', 'C10.R3', 'fallback returns the first of several matches', (CONT, 'VectorContainer._locate_period_in_span_fallback', 'if len(positions) == 1:', 'if len(positions) >= 1:'))
+V('v10.4c', 'C10', 'F', 'C10.R3', 'fallback: no match returns -1', (CONT, 'VectorContainer._locate_period_in_span_fallback', """        if len(positions) == 0:
+            raise KeyError(period)
+""", """        if len(positions) == 0:
+            return -1
+"""))
+
+# ---------------------------------------------------------------------------
+# C11
+# ---------------------------------------------------------------------------
+V('v11.1', 'C11', 'F', 'C11.R3', 'revert F2 (CHECK by reference)', (MODELS, 'BaseModel.__init__', "self.add_attribute('check', copy.deepcopy(self.CHECK))", "self.add_attribute('check', self.CHECK)"))
+V('v11.1b', 'C11', 'F', 'C11.R3', 'revert F2 in the linker', (LINKERS, 'BaseLinker.__init__', "self.add_attribute('endogenous', copy.deepcopy(self.ENDOGENOUS))", "self.add_attribute('endogenous', self.ENDOGENOUS)"))
+V('v11.2', 'C11', 'F', 'C11.R3', 'names = self.NAMES', (IFACE, 'ModelInterface.__init__', 'names = copy.deepcopy(self.NAMES)', 'names = self.NAMES'))
+V('v11.3', 'C11', 'F', 'C11.R3', 'preferred_names without copy', (XCOMMON, 'AliasMixin.__init__', 'preferred_names = copy.deepcopy(self.PREFERRED_NAMES)', 'preferred_names = self.PREFERRED_NAMES'))
+V('v11.3b', 'C11', 'F', 'C11.R3', 'revert F13: Trace keeps TRACE_VARIABLES', (XMODEL, 'TracerMixin.trace_t', 'Trace(list(names))', 'Trace(names)'))
+V('v11.4', 'C11', 'F', 'C11.R2', 'copy stores values by reference',
+  (CONT, 'VectorContainer.copy', 'copied.__dict__.update({k: copy.deepcopy(v) for k, v in self.__dict__.items()})', 'copied.__dict__.update({k: v for k, v in self.__dict__.items()})'))
+V('v11.4b', 'C11', 'F', 'C11.R2', 'linker copy shares its submodels',
+  (LINKERS, 'BaseLinker.copy', """            submodels={
+                copy.deepcopy(k): copy.deepcopy(v)
+                for k, v in self.__dict__['submodels'].items()
+            }""", """            submodels=self.__dict__['submodels']"""))
+V('v11.5', 'C11', 'F', 'C11.R1', 'BaseLinker loses __copy__', (LINKERS, 'BaseLinker', '    __copy__ = copy\n', ''))
+V('v11.5b', 'C11', 'F', 'C11.R1', '__deepcopy__ returns self', (CONT, 'VectorContainer.__deepcopy__', 'return self.copy()', 'return self'))
+V('v11.6', 'C11', 'F', 'C11.R2', "linker copy also excludes 'name' without passing it on",
+  (LINKERS, 'BaseLinker.copy', "if k not in ['submodels']", "if k not in ['submodels', 'name']"))
+V('v11.7', 'C11', 'F', 'C11.R5', 'eval updates the package helper table', (CONT, 'VectorContainer.eval', '        locals_.update({x: self[x] for x in self.index})', '        _builtins.update({x: self[x] for x in self.index})\n        locals_.update(_builtins)'))
+V('v11.8', 'C11', 'F', 'C11.R4', 'mutable default argument', (CONT, 'VectorContainer.replace_values', 'def replace_values(self, **new_values) -> None:', 'def replace_values(self, _seen=[], **new_values) -> None:'))
+V('v11.9', 'C11', 'F', 'C11.R5', 'alias registered on the class dict', (XCOMMON, 'AliasMixin._resolve_alias', 'return self.aliases.get(alias, alias)', 'self.ALIASES.setdefault(alias, alias)\n        return self.aliases.get(alias, alias)'))
+V('v11.s1', 'C11', 'S', None, 'list() instead of deepcopy', (MODELS, 'BaseModel.__init__', "copy.deepcopy(self.CHECK)", "list(self.CHECK)"))
+V('v11.s2', 'C11', 'S', None, 'ALIASES aliased then rebuilt by a comprehension',
+  (XCOMMON, 'AliasMixin.__init__', 'aliases = copy.deepcopy(self.ALIASES)', 'aliases = dict(self.ALIASES)'))
+V('v11.s3', 'C11', 'S', None, 'ALIASES read without copy but rebuilt before the store', (XCOMMON, 'AliasMixin.__init__', 'aliases = copy.deepcopy(self.ALIASES)', 'aliases = self.ALIASES'))
